@@ -119,6 +119,26 @@ def case(ctx, case):
             if bool(((out_sum["log_likelihood"].double() - ll_steps.double().sum(1)).abs() > 1e-4 * ll_steps.double().sum(1).abs().clamp(min=1.0)).any()):
                 ctx.violation(dict(sig, q="sum"), "summed log-likelihood != sum of the per-step log-probabilities of the same rollout", dict(B=B))
                 return
+        # --- replicated rollouts: evaluate the returned actions on the replicated instances --------------------
+        if (multistart or dk.get("num_samples")) and decode_type != "beam_search" and R % B == 0 and R > B:
+            from rl4co.utils.ops import batchify
+
+            ev_kw = {k: v for k, v in dk.items() if k in ("temperature", "tanh_clipping", "top_k", "top_p")}
+            try:
+                ev = pol(batchify(td0.clone(), R // B), env, phase="train", actions=actions.clone(), return_sum_log_likelihood=False, **ev_kw)
+            except Exception as e:
+                ctx.violation(dict(sig, q="evaluate_raises", exc=type(e).__name__), f"evaluating replicated rollouts raised {type(e).__name__}: {str(e)[:200]}", dict(B=B))
+                return
+            ctx.count("c11_roundtrips_replicated", R)
+            d = (ev["log_likelihood"][:, off:].double() - ll_steps[:, off:].double()).abs()
+            if bool((d > 1e-4).any()):
+                r = int(d.max(1).values.argmax())
+                ctx.violation(dict(sig, q="roundtrip_logprob", replicated=True), f"row {r} (instance {r % B}): per-step log-probs of a replicated rollout differ by up to {float(d.max()):.4g} from those the policy assigns when the same actions are evaluated on that instance",
+                              dict(B=B, n=n, decode=case["decode"]))
+                return
+            if bool(((ev["reward"] - reward).abs() > 1e-5 * reward.abs().clamp(min=1.0)).any()):
+                ctx.violation(dict(sig, q="roundtrip_reward", replicated=True), "evaluate(actions) reward differs from the replicated rollout's", dict(B=B))
+                return
         # --- evaluate round trip (same batch, same mode) ------------------------------------------------
         if not multistart and not dk.get("num_samples") and decode_type != "beam_search":
             ev_kw = {k: v for k, v in dk.items() if k in ("temperature", "tanh_clipping", "top_k", "top_p")}
@@ -140,3 +160,47 @@ def case(ctx, case):
                 return
     ctx.nontrivial_case(dict(c=case, a=actions.tolist()))
     ctx.sample(dict(case=case, ll_row0=ll_steps[0].tolist()[:6]))
+
+
+
+def stepwise_case(ctx, case):
+    """L2DPolicy4PPO (step-wise PPO on FJSP/JSSP): act() stores the log-prob of the sampled action; evaluate() on the same
+    state and action must reproduce it (PPO ratio of the un-updated policy = 1), equal the clipped, masked, normalised
+    distribution recomputed from the actor's logits, and report that distribution's entropy."""
+    from rl4co.models.zoo.l2d.policy import L2DPolicy4PPO
+
+    name, B, seed = case["env"], case["B"], case["s"]
+    env, O, cfg = policies.env_for(name, 6, **case.get("extra", {}))
+    torch.manual_seed(case.get("wseed", 0))
+    pol = L2DPolicy4PPO(env_name=env.name, embed_dim=32, num_encoder_layers=1, tanh_clipping=case.get("clip", 10))
+    pol.eval()
+    torch.manual_seed(seed)
+    td = env.reset(env.generator(batch_size=[B]))
+    sig = dict(policy="l2d_ppo", env=name, decode="stepwise_act_evaluate")
+    steps = 0
+    with torch.no_grad():
+        while not td["done"].all() and steps < case.get("max_steps", 40):
+            td = pol.act(td, env, phase="train")
+            a, lp_act = td["action"].clone(), td["logprobs"].clone()
+            tde = td.clone()
+            lp_ev, _, ent = pol.evaluate(tde)
+            # independent reference from the actor's own logits
+            logits, mask = pol.decoder(td.clone(), hidden=None, num_starts=0)
+            x = torch.tanh(logits.double()) * pol.tanh_clipping if pol.tanh_clipping > 0 else logits.double()
+            ref = torch.log_softmax(x.masked_fill(~mask, float("-inf")), -1)
+            want = ref.gather(1, a[:, None]).squeeze(1)
+            ent_ref = -(ref.exp() * torch.nan_to_num(ref, neginf=0.0)).sum(-1)
+            ctx.evaluation(B)
+            ctx.count("c11_stepwise_rows", B)
+            if bool(((lp_ev.double() - lp_act.double()).abs() > 1e-4).any()):
+                ctx.violation(dict(sig, q="roundtrip_logprob"), f"step {steps}: evaluate() gives log-prob {lp_ev.tolist()[:3]} for the action act() sampled with log-prob {lp_act.tolist()[:3]} (PPO ratio of the un-updated policy != 1)", dict(B=B))
+                return
+            if bool(((lp_act.double() - want).abs() > 1e-4).any()):
+                ctx.violation(dict(sig, q="step_logprob"), f"step {steps}: act() stored {lp_act.tolist()[:3]}, the clipped masked normalised distribution gives {want.tolist()[:3]}", dict(B=B))
+                return
+            if bool(((ent.double() - ent_ref).abs() > 1e-3 * ent_ref.abs().clamp(min=1.0)).any()):
+                ctx.violation(dict(sig, q="entropy"), f"step {steps}: evaluate() entropy {ent.tolist()[:3]} != entropy of the step distribution {ent_ref.tolist()[:3]}", dict(B=B))
+                return
+            td = env.step(td)["next"]
+            steps += 1
+    ctx.nontrivial_case(dict(c=case))
